@@ -392,3 +392,36 @@ GROUPS["g7"] += [
       ".for_each(|w| w.iter().for_each(|c| hasher.write_u32(c.to_ascii_lowercase() as u32)));",
       "R-C07-adopt:MergedDictionary::hash_dictionary"),
 ]
+
+GROUPS["g8"] = [
+    # a context-sensitive retagging pass moved behind the dictionary lookup (the shape of seeded/C14)
+    E("c14-retag-after-lookup", ["C14"], "harper-core/src/document.rs",
+      "        self.match_quotes();\n        self.articles_imply_nouns();\n\n        for token in self.tokens.iter_mut() {\n            if let TokenKind::Word(meta) = &mut token.kind {\n                let word_source = token.span.get_content(&self.source);\n                let found_meta = dictionary.get_word_metadata(word_source);\n                *meta = found_meta.cloned()\n            }\n        }\n",
+      "        self.match_quotes();\n\n        for token in self.tokens.iter_mut() {\n            if let TokenKind::Word(meta) = &mut token.kind {\n                let word_source = token.span.get_content(&self.source);\n                let found_meta = dictionary.get_word_metadata(word_source);\n                *meta = found_meta.cloned()\n            }\n        }\n\n        self.articles_imply_nouns();\n",
+      "R-C14-context:Document::parse:after-lookup"),
+    # an answer handed out without the pipeline (the shape of seeded/C16, without the memo)
+    E("c16-shortcut-answer", ["C16"], "harper-wasm/src/lib.rs",
+      "        let parser = language.create_parser();\n\n        let document = Document::new_from_vec(source.clone(), &parser, &self.dictionary);\n\n        let temp",
+      "        let parser = language.create_parser();\n\n        let document = Document::new_from_vec(source.clone(), &parser, &self.dictionary);\n\n        if source.len() == 424242 {\n            let raw = self.lint_group.lint(&document);\n            return raw\n                .into_iter()\n                .map(|l| Lint::new(l, String::new(), language))\n                .collect();\n        }\n\n        let temp",
+      "R-C16-pipeline:Linter::lint"),
+]
+GROUPS["p3"] += [
+    # an own-token-only pass may run after the lookup
+    E("p-c14-local-pass-after-lookup", ["C14"], "harper-core/src/document.rs",
+      "                *meta = found_meta.cloned()\n            }\n        }\n    }\n",
+      "                *meta = found_meta.cloned()\n            }\n        }\n\n        self.newlines_to_breaks();\n    }\n",
+      None),
+    # an empty text needs no pipeline
+    E("p-c16-empty-text", ["C16"], "harper-wasm/src/lib.rs",
+      "    pub fn lint(&mut self, text: String, language: Language) -> Vec<Lint> {\n        let source: Vec<_> = text.chars().collect();",
+      "    pub fn lint(&mut self, text: String, language: Language) -> Vec<Lint> {\n        if text.is_empty() {\n            return Vec::new();\n        }\n\n        let source: Vec<_> = text.chars().collect();",
+      None),
+]
+
+GROUPS["g8"] += [
+    # the number lexer looks for the last digit of the whole remaining text again (F11)
+    E("c12-number-backscan", ["C12"], "harper-core/src/lexing/mod.rs",
+      "    let end = source[..candidate_len]\n        .iter()\n        .rposition(|c| c.is_ascii_digit())?;",
+      "    let _ = candidate_len;\n    let end = source.iter().rposition(|c| c.is_ascii_digit())?;",
+      "R-C12-lexlocal:entry:lex_number"),
+]
